@@ -205,6 +205,12 @@ def main():
         "notes": ctx.notes,
     }
     cov.update(ctx.extra)
+    if ctx.proof_broken is not None:
+        # a proof-level claim needs discharged >= 1: when the proof is broken the proof keys are
+        # withdrawn (the run reports a violation anyway) and only the exploration counts remain
+        cov["obligations_total"] = cov.pop("obligations")
+        cov["obligations_discharged"] = cov.pop("discharged")
+        cov["proof_broken"] = ctx.proof_broken[:2000]
     ev = {
         "property_id": pid,
         "tier": tier,
